@@ -116,7 +116,7 @@ def main():
 
     with ThreadPoolExecutor(max_workers=workers) as ex:
         tri = list(ex.map(job, muts))
-    out_path = os.path.join(V, "seeded", "mutation_campaign.json")
+    out_path = os.path.join(V, "seeded", os.environ.get("MC_OUT", "mutation_campaign.json"))
     old = json.load(open(out_path)) if os.path.exists(out_path) else {}
     if "--from-log" in sys.argv:
         # rebuild the first-phase records from the campaign log (the campaign was stopped before it wrote its JSON)
